@@ -1,15 +1,15 @@
 SPECIFICATION Spec
 CONSTANTS
   Deviations <- AllDevs
-  MaxCalls = 4
+  MaxCalls = 3
   MaxDepth = 1
   Ops = {"Add"}
   LitMenu = {"i1"}
-  InMenu = {1, 4}
+  InMenu = {1}
   Trips = {2}
-  Kinds = {"if", "call"}
+  Kinds = {"loop", "scan", "call"}
   FnMenu = {4}
-  CarryMenu = {}
+  CarryMenu = {"f2"}
   LitOnly = TRUE
   Sim = FALSE
 INVARIANT DesignOK
